@@ -1,6 +1,6 @@
 """Contracts for dns/rcode.py, dns/opcode.py (C03 header/flag codecs) and dns/serial.py (C10 RFC 1982)."""
 from pyvc.api import REG, loop
-from pyvc.sym import T
+from pyvc.sym import T, SObj as _SObj
 import pyvc.spec  # noqa: F401
 
 REG.contract(
@@ -98,6 +98,7 @@ for op, rhs in (("__lt__", LT), ("__gt__", GT), ("__eq__", "(self.value == other
         returns=T.bool,
         ensures=[f"result == {rhs}"],
         props=["C10", "C13"],
+        when=lambda b: isinstance(b.get("other"), _SObj),
         note="RFC 1982 section 3.2 comparison on 32-bit serials",
     )
     if op in ("__le__", "__ge__"):
@@ -110,6 +111,7 @@ for op, rhs in (("__lt__", LT), ("__gt__", GT), ("__eq__", "(self.value == other
         ensures=[f"result == {rhs.replace('other.value', '(other % 2**32)')}"],
         props=["C10", "C13"],
         target=f"dns.serial.Serial.{op}",
+        when=lambda b: not isinstance(b.get("other"), _SObj),
         note="comparison against a plain int: the int is reduced modulo 2**32 first",
     )
 
